@@ -197,10 +197,21 @@ def run(ctx):
                     if got0 != want0:
                         res.violation("CDecay table does not use the declared partners of user labels", {"kind": "cdecay-agree", "text": text0}, impl=got0, model=want0,
                                       clause="agreement with CDecay")
+                with_copy = rng.random() < 0.4
+                if with_copy:
+                    # the same decay also under a second name made by CopyDecay, with its own declared conjugate and CDecay: both
+                    # conjugate tables exist and both are the conjugate of the one written decay
+                    cp, cpbar = rng.choice([("MyCopy", "MyCopybar"), ("AAcopy", "anti-AAcopy"), ("zz_sig", "zz_sigbar")])
+                    text += f"CopyDecay {cp} {mother}\nChargeConj {cp} {cpbar}\nCDecay {cpbar}\n"
                 try:
                     p = DecFileParser.from_string(text)
                     p.parse()
                     got = sorted(p.list_decay_modes(cm)[0])
+                    if with_copy:
+                        got2 = sorted(p.list_decay_modes(cpbar)[0])
+                        res.count("cdecay_agreement_with_copy")
+                        if got2 != got:
+                            got = {"CDecay " + cm: got, "CDecay " + cpbar: got2}
                 except Exception as e:
                     got = f"{type(e).__name__}: {e}"
                 wantc = DecayMode(0.5, safe).charge_conjugate().daughters.to_list()
